@@ -265,6 +265,7 @@ OBJS = {
     "stocked": (lambda: me.Stocked(sku=me.Sku("AB-1"), alt=me.Sku("CD-2"), qty=3), "m_edge.Stocked"),
     "house1": (lambda: s1.House(street=s1.Street(name="a", number=1), streets=[s1.Street(name="b")], owner="o"), "m_same1.House"),
     "house2": (lambda: s2.House(street=s2.Street(name="a", zip_code="z"), streets=[s2.Street(name="b", zip_code="y")], owner="o"), "m_same2.House"),
+    "orderline": (lambda: me.OrderLine(line_no=1, unit_price=Decimal("3.50"), order_items=["a", "b"]), "m_edge.OrderLine"),
     "attrmix": (lambda: me.AttrMix(id="i", lang="en", space="preserve", qualified=4, rest={"{urn:o}x": "1", "plain": "p"}, value=7), "m_edge.AttrMix"),
 }
 # objects whose annotations resolve only with SerializerConfig.globalns: serialized with that configuration only
@@ -273,6 +274,12 @@ OBJS_GLOBALNS = {
 }
 # classes that only work with SerializerConfig.globalns: never a parse target, never named by a fault
 SERIALIZE_ONLY = {"m_edge.NeedsGlobals"}
+# objects also handled by tools of the callers' second context (other name generators): name -> (factory, class key, a document in that context's names)
+OBJS_NAMEGEN = {
+    "orderline": (lambda: me.OrderLine(line_no=1, unit_price=Decimal("3.50"), order_items=["a", "b"]), "m_edge.OrderLine", b'<orderLine line-no="1"><unitPrice>3.50</unitPrice><orderItems>a</orderItems></orderLine>'),
+    "appsettings1": (lambda: me.AppSettings1(settings_one_name="n"), "m_edge.AppSettings1", b"<Settings1><settingsOneName>n</settingsOneName></Settings1>"),
+    "stamped": (lambda: me.Stamped(release=me.Release.FIRST), "m_edge.Stamped", b'<stamped xmlns="urn:e" at="2020-01-01T00:00:00"><release>2020-01-01T00:00:00</release><opens>09:00:00</opens></stamped>'),
+}
 OBJS_GLOBALNS2 = {
     "needsglobals2": (lambda: me.NeedsGlobals(hidden_part=me._HiddenPart2(w="x"), hidden_parts=[me._HiddenPart2(w="y")], hidden_label="l2"), "m_edge.NeedsGlobals"),
 }
@@ -444,6 +451,7 @@ _x("hw_noclass_settings2", None, """<Settings2><settings_two_name>x</settings_tw
 _x("hw_holder_settings", "m_edge.Holder", """<e:holder xmlns:e="urn:e" xmlns:xsi="http://www.w3.org/2001/XMLSchema-instance"><e:anything xsi:type="Settings1"><settings_one_name>n</settings_one_name></e:anything><e:more xsi:type="Settings2"><settings_two_name>m</settings_two_name></e:more></e:holder>""")
 _x("hw_house1", "m_same1.House", """<h:house xmlns:h="urn:s1" owner="o"><h:street><h:name>a</h:name><h:number>1</h:number></h:street><h:side><h:name>b</h:name></h:side></h:house>""")
 _x("hw_house2", "m_same2.House", """<h:house xmlns:h="urn:s2" owner="o"><h:street zip_code="z"><h:name>a</h:name></h:street><h:side zip_code="y"><h:name>b</h:name></h:side></h:house>""")
+_x("hw_orderline", "m_edge.OrderLine", """<OrderLine line_no="1"><unit_price>3.50</unit_price><order_items>a</order_items></OrderLine>""")
 _x("hw_attrmix", "m_edge.AttrMix", """<e:attrMix xmlns:e="urn:e" xmlns:o="urn:o" id="i" xml:lang="en" xml:space="preserve" e:qualified="4" o:x="1" plain="p"> 7 </e:attrMix>""")
 _x("hw_item_constructs", "m_basic.Item", """<?xml version="1.0"?><!DOCTYPE item [<!ENTITY nm "entity name">]><?pi before?><!-- c --><item xmlns="urn:basic" id="&#49;" xml:lang="en"><?pi inside?><name>&nm; <![CDATA[<cdata>]]> &amp;<!-- in text --> end</name><qty><![CDATA[2]]></qty></item><!-- after --><?pi after?>""")
 _x("hw_item_leapday", "m_basic.Item", """<item xmlns="urn:basic" id="1"><name>leap</name><when>2024-02-29</when><stamp>2024-02-29T10:00:00Z</stamp><at>23:59:59.999</at><took>P1Y2M3DT4H5M6.5S</took></item>""")
